@@ -30,6 +30,11 @@
 (*                     has been written (FALSE: only until the handler     *)
 (*                     returns - Shutdown can close the connection under   *)
 (*                     the pending reply and still report success)         *)
+(*   TimeoutIsError    a Shutdown whose context expires while requests are *)
+(*                     still being handled reports that (FALSE: it reports *)
+(*                     success - AfterShutdown fails)                      *)
+(*   RetryWaits        a second Shutdown after one that gave up waits like *)
+(*                     the first (FALSE: it returns success at once)       *)
 (* Beyond the listed properties (check E05):                               *)
 (*   ListenerMayFail   the environment may make the listener fail while    *)
 (*                     the server is running (Accept returns an error that *)
@@ -39,7 +44,7 @@
 (*                     called)                                             *)
 (***************************************************************************)
 EXTENDS Integers, Sequences, FiniteSets, TLC, Json
-CONSTANTS K, CloseGuardOwn, CancelWakesAccept, ShutdownClaims, TrackChecksDown, UnmarkAfterWrite, StartupSafe, ListenerMayFail, FailureDistinct, Emit
+CONSTANTS K, CloseGuardOwn, CancelWakesAccept, ShutdownClaims, TrackChecksDown, UnmarkAfterWrite, StartupSafe, ListenerMayFail, FailureDistinct, TimeoutIsError, RetryWaits, Emit
 
 Conns == 1..K
 
@@ -318,9 +323,26 @@ SdPassEnd ==
 \* the caller's context expires while connections are still being handled: Shutdown returns ctx.Err()
 SdTimeout ==
     /\ sdPc = "scan" /\ sdTodo = {} /\ ~sdAllIdle
-    /\ sdPc' = "done" /\ sdRet' = "ctxerr" /\ mu' = 0
+    /\ sdPc' = "done" /\ mu' = 0
+    /\ IF TimeoutIsError THEN sdRet' = "ctxerr" /\ UNCHANGED <<sdStartedAtRet, sdOpenAtRet>>
+       ELSE /\ sdRet' = "nil"
+            /\ sdStartedAtRet' = {c \in Conns : started[c] > delivered[c]}
+            /\ sdOpenAtRet' = {c \in everTracked : sock[c] = "open"}
     /\ H("sdtimeout", 0)
-    /\ UnchangedSdRest /\ UNCHANGED <<lis, sock, ibh, isShutdown, sdCur, sdTodo, sdAllIdle, sdStartedAtRet, sdOpenAtRet>>
+    /\ UnchangedSdRest /\ UNCHANGED <<lis, sock, ibh, isShutdown, sdCur, sdTodo, sdAllIdle>>
+
+\* the application calls Shutdown again after one that gave up
+SdRetry ==
+    /\ sdPc = "done" /\ sdRet = "ctxerr" /\ mu = 0
+    /\ IF RetryWaits
+       THEN /\ mu' = -1 /\ sdPc' = "scan" /\ sdRet' = "none" /\ sdAllIdle' = TRUE
+            /\ sdTodo' = {c \in tracked : sock[c] = "open" \/ ibh[c]}
+            /\ UNCHANGED <<sdStartedAtRet, sdOpenAtRet>>
+       ELSE /\ sdRet' = "nil" /\ UNCHANGED <<mu, sdPc, sdAllIdle, sdTodo>>
+            /\ sdStartedAtRet' = {c \in Conns : started[c] > delivered[c]}
+            /\ sdOpenAtRet' = {c \in everTracked : sock[c] = "open"}
+    /\ H("shutdown", 0)
+    /\ UnchangedSdRest /\ UNCHANGED <<lis, sock, ibh, isShutdown, sdCur>>
 
 ----------------------------------------------------------------------------
 Quiescent ==
@@ -332,7 +354,7 @@ Next ==
     \/ \E c \in Conns : Dial(c) \/ Send(c) \/ Hangup(c)
     \/ Cancel \/ ServeStart \/ AcceptConn \/ ListenerFail \/ AcceptFail \/ CancelWake \/ AcceptCb \/ CtxCheck \/ TrackAdd
     \/ \E c \in Conns : ConnLeave(c) \/ ConnRead(c) \/ ConnMark(c) \/ ConnHandle(c) \/ ConnWrite(c) \/ ConnUnmark(c) \/ ConnClose(c) \/ ConnUntrack(c) \/ ConnCloseCb(c)
-    \/ SdStart \/ (\E c \in Conns : SdCheck(c)) \/ SdClose \/ SdPassEnd \/ SdTimeout
+    \/ SdStart \/ (\E c \in Conns : SdCheck(c)) \/ SdClose \/ SdPassEnd \/ SdTimeout \/ SdRetry
     \/ (Quiescent /\ UNCHANGED vars)
 
 AccSteps == ServeStart \/ AcceptConn \/ AcceptFail \/ CancelWake \/ AcceptCb \/ CtxCheck \/ TrackAdd
